@@ -37,6 +37,9 @@ for p in props:
         continue
     mod = importlib.import_module('sa.rules.%s' % pid.lower())
     expl = ' '.join(mod.EXPLANATION.split())
+    expl += (' Generic clause %s.0 (every property, over its anchored modules): a routine that reads state outside the process '
+             '(file system, clock, ZooKeeper, admin store) carries no memoising decorator and keeps nothing in a module-level '
+             'container between calls.' % pid)
     checks.append({
         'property_id': pid,
         'quick_cmd': './check %s --tier quick' % pid,
@@ -62,7 +65,7 @@ m = {
  'engines': [{'name': 'sa', 'path': '/verif/sa', 'serves_properties': [c['property_id'] for c in checks],
               'kind_free_text': 'repository-specific static analysis in pure Python stdlib: module index, statement CFG with atomic condition edges, CFG x automaton product, must-facts dataflow, condition normal forms, per-property rule modules; thorough tier adds whole-package index and a mutant/refactor sensitivity self-test'}],
  'checks': checks,
- 'notes': 'quick = all rules of the property on the anchored modules (<1 s); thorough = same rules with the whole package indexed plus the sensitivity self-test (mutants must be detected, benign refactors must stay silent; never changes the exit code). Known findings: /verif/known_findings.json.',
+ 'notes': 'quick = all rules of the property, whole-package OWNER clauses included (1-3 s); thorough = the same rules with the whole package indexed (adds the record-owner clause of C09) plus the sensitivity self-test, which also replays the recorded seeded changes (must be detected) and refactorings (must stay silent) of the property as in-memory overlays; the self-test never changes the exit code. Known findings: /verif/known_findings.json.',
  'not_applicable': na,
 }
 json.dump(m, open('/verif/MANIFEST.json', 'w'), indent=1)
